@@ -17,7 +17,6 @@ structure Inv (st : List Byte) (m : Mach) : Prop where
   r9 : m.reg 9 = some stateW
   r10 : m.reg 10 = some stackW
   regsLen : m.regs.length = 11
-  stackLen : m.stack.length = 512
   stEq : m.st = st
   stLen : st.length = 512
 
@@ -40,7 +39,6 @@ theorem Inv.setReg {st : List Byte} {m : Mach} (h : Inv st m) (r : Nat) (v : Wor
   r9 := by rw [reg_setReg_ne h9]; exact h.r9
   r10 := by rw [reg_setReg_ne h10]; exact h.r10
   regsLen := by simp [Mach.setReg, h.regsLen]
-  stackLen := h.stackLen
   stEq := h.stEq
   stLen := h.stLen
 
